@@ -4,7 +4,7 @@ import FsicModel.EvalIndex
 Driver handlers for the eval-index model.
   evalidx : {"span": {"kind": "list"|"numpy"|"table", "labels": [...], "table": [[label, contains, loc], ...]},
              "expr": "<text>", "direct": bool}
-            → `ok:<rewritten text>` | `err:<KeyError|ValueError|AttributeError|unmodelled>`
+            → `ok:<rewritten text>` | `err:<KeyError|ValueError|unmodelled>`
             (`direct` = call `_resolve_expression_indexes` itself, without eval's "contains a backtick" test)
   evalns  : {"helpers": [...], "vars": [...], "locals": [...]|null, "builtins": [...]|null, "names": [...]}
             → for every queried name the layer that wins, then whether the package table is unchanged
@@ -49,14 +49,13 @@ def parseSpan (j : Json) : R Span := do
 def errStr : Err → String
   | .keyError => "KeyError"
   | .valueError => "ValueError"
-  | .attributeError => "AttributeError"
   | .unmodelled => "unmodelled"
 
 def handleEvalIdx (j : Json) : R String := do
   let sp ← parseSpan (← obj j "span")
   let expr := (← str j "expr").toList
   let direct := (bool j "direct").toOption.getD false
-  let r := if direct then subAll (resolveGroup sp) expr 0 else resolveExpression sp expr
+  let r := if direct then subAll (resolveMatch sp) expr else resolveExpression sp expr
   match r with
   | .ok t => pure ("ok:" ++ Json.compress (Json.str (String.ofList t)))
   | .error e => pure ("err:" ++ errStr e)
